@@ -142,7 +142,7 @@ func (di DatabaseInfo) marshal() *proto2.DatabaseInfo {
 	}
 
 	pb.MarkDeleted = proto.Bool(di.MarkDeleted)
-	if di.ShardKey.ShardKey != nil {
+	if di.ShardKey.ShardKey != nil || di.ShardKey.Type != "" || di.ShardKey.ShardGroup != 0 {
 		pb.ShardKey = di.ShardKey.Marshal()
 	}
 	pb.EnableTagArray = proto.Bool(di.EnableTagArray)
